@@ -218,9 +218,19 @@ def bits_of(v):
 
 
 def same_bits(a, b, target):
-    x, y = bits_of(a), bits_of(b)
     if target == "python":
-        return x == y
+        # Python numbers: a numpy.float64 (e.g. from a numpy-integer constant in the reference evaluation) is a float
+        def py(v):
+            if isinstance(v, np.floating):
+                return float(v)
+            if isinstance(v, np.integer):
+                return int(v)
+            if isinstance(v, np.bool_):
+                return bool(v)
+            return v
+
+        return bits_of(py(a)) == bits_of(py(b))
+    x, y = bits_of(a), bits_of(b)
     # numpy / cpp: dtype must agree as well, NaNs identified
     if x[0] == "nan" and y[0] == "nan":
         return True
@@ -551,6 +561,7 @@ def gen_cases(target):
             extra_unary=eu,
             extra_binary=eb,
             extra_pred=declared(target, EXTRA_PRED),
+            np_int_consts=True,
         ),
         st.integers(0, 2**31 - 1),
         st.dictionaries(st.integers(0, 20).map(str), st.sampled_from(["a", "b", "a", "t", "a", "fn", "result", "abs_x", "a"]), max_size=5),
@@ -605,6 +616,21 @@ def check_case(case, batch=None):
     return out, {"rejected": False, "compared": ncmp}
 
 
+def _const_specs(syms, base, bi):
+    """constants in every operand position, given as Python ints, Python floats and numpy integer scalars (an integer
+    literal emitted for a floating constant changes 1/3, -0 and the overload chosen for max/min)"""
+    out = []
+    vals = [(["int", 1], ["int", 3]), (["np.int64", 1], ["np.int64", 3]), (["np.int32", 7], ["int", 2]), (["float", "0x1p+0"], ["np.int64", 3])]
+    for k in bi:
+        for va, vb in vals:
+            out.append((k, {"syms": syms, "nodes": base + [["const", va, 0], ["const", vb, 0], [k, 3, 4], ["multiply", 5, 0]], "root": 6}))
+            out.append((k, {"syms": syms, "nodes": base + [["const", vb, 0], [k, 0, 3], ["add", 4, 1]], "root": 5}))
+            out.append((k, {"syms": syms, "nodes": base + [["const", vb, 0], [k, 3, 0], ["add", 4, 1]], "root": 5}))
+    for vz in (["int", 0], ["np.int64", 0], ["float", "0x0p+0"]):
+        out.append(("negative", {"syms": syms, "nodes": base + [["const", vz, 0], ["negative", 3], ["divide", 0, 4]], "root": 5}))
+    return out
+
+
 def cpp_template_probe(task):
     """Every unary/binary kind the C++ target declares, in float32 and float64, inlined into further inexact arithmetic
     (k(..)*y + z and k(x*y + z ..)): an operand or result silently promoted to double (unqualified C function, untyped
@@ -622,6 +648,8 @@ def cpp_template_probe(task):
         for k in un:
             cases.append((k, T, {"syms": syms, "nodes": base + [[k, 0], ["multiply", 3, 1], ["add", 4, 2]], "root": 5}))
             cases.append((k, T, {"syms": syms, "nodes": base + [["multiply", 0, 1], ["add", 3, 2], [k, 4], ["multiply", 5, 1], ["subtract", 6, 2]], "root": 7}))
+        for k, spec in _const_specs(syms, base, bi):
+            cases.append((k, T, spec))
         for k in declared("cpp", EXTRA_PRED):
             cases.append((k, T, {"syms": syms, "nodes": base + [[k, 0], ["select", 3, 1, 2]], "root": 4}))
             cases.append((k, T, {"syms": syms, "nodes": base + [["divide", 0, 1], [k, 3], ["logical_not", 4], ["select", 5, 1, 2]], "root": 6}))
@@ -648,6 +676,7 @@ def py_template_probe(task):
         for k in un:
             specs.append((k, {"syms": syms, "nodes": base + [[k, 0], ["multiply", 3, 1], ["add", 4, 2]], "root": 5}))
             specs.append((k, {"syms": syms, "nodes": base + [["multiply", 0, 1], ["add", 3, 2], [k, 4], ["multiply", 5, 1], ["subtract", 6, 2]], "root": 7}))
+        specs += _const_specs(syms, base, bi)
         for k in declared(target, EXTRA_PRED):
             specs.append((k, {"syms": syms, "nodes": base + [[k, 0], ["select", 3, 1, 2]], "root": 4}))
             specs.append((k, {"syms": syms, "nodes": base + [["divide", 0, 1], [k, 3], ["logical_not", 4], ["select", 5, 1, 2]], "root": 6}))
